@@ -395,5 +395,5 @@ def c19_units(tier):
 reg("C19", c19_units,
     "bounded symbolic model checking of the STRUCTURE of the human list: the node tree the renderer is given (real buildListRoots / buildTree / filterAndCollapseNodes / filterNodesByReady / derivedEpicState) holds every live item exactly once with --all, every active task exactly once by default, exactly the ready tasks with --ready, children under their own epic, two levels; the numbers behind the summary line (real computeStatsForTasks over the real scope filters) equal the tasks per bucket. One node = one row. Row layout: formatTreeLine over a display-width abstraction (no panic; the id ends exactly in its right-hand column whenever the fixed part of the row leaves room). Byte level: abbreviate keeps valid UTF-8 (RFC 3629 state machine and utf8.ValidString executed on <=6 symbolic bytes).",
     ["NOT decided (byte level): that a row fits the terminal width, ends with the id in a fixed column, and is valid UTF-8 for every title / claimant / blocker text (formatTreeLine, truncateToWidth, abbreviate work on bytes and runes; the engine's byte mode did not reach them: see DESIGN); the empty-view sentences; the --epic focused view",
-     "CUT: topoSortTasks replaced by the identity (order of siblings is not claimed)",
+     "CUT: topoSortTasks replaced by the identity (order of siblings is not claimed). ASSUMED, not verified: the real function returns a permutation of its input (Kahn's algorithm over a symbolic work list did not finish even for 2 items); a change that makes it drop items (seed C19f) is not detected",
      "store invariants I1-I5 assumed (established by C06/C07/C14 steps)"])
